@@ -12,7 +12,8 @@
 // ("J:<format>/<aspect>", "V:<format>/<aspect>") so that the python side can
 // assemble the format matrix.
 //
-//   c08 --family gro|xyz|pdb|dump|xml|table|imc|atomcount --seed S --shard k
+//   c08 --family gro|xyz|pdb|dump|xml|table|imc|atomcount|dumpread|readers
+//       --seed S --shard k
 //       --n N --dir D
 //   c08 --family dlpoly --seed S --case k --dir D     (ONE case per process:
 //       the DL_POLY writer keeps process-global static state)
@@ -1225,6 +1226,474 @@ static void imc_ds_case(vfh::Rng &r, const std::string &file) {
   judge("imc", "dS", ok, "imc/dS", "dS vector differs after imcio_write_dS / Table::Load (8 significant digits)", J().vec("x", x).vec("y", y).i("row", bad).i("got_rows", (long long)u.size()));
 }
 
+// ===================================================== reader variants
+// Harness-written files in the formats' official layouts, with the variants
+// VOTCA's own writers never produce (LAMMPS dump column flavours and orders,
+// gro box-line / velocity variants, free-format xyz, 80-column pdb, DL_POLY
+// levcfg 0/1/2). Expected values are computed from the printed tokens, so the
+// comparison is exact up to a few ulp.
+struct Exp {
+  M3 box = M3::Zero();
+  std::vector<V3> pos, vel, frc;  // frc in FILE units, see ffac
+  bool hv = false, hf = false, has_step = false, has_box = true;
+  long step = 0;
+};
+static bool nearx(double g, double e, double atol = 0) { return std::isfinite(g) && std::fabs(g - e) <= 64 * EPS * std::max(std::fabs(g), std::fabs(e)) + atol + 1e-300; }
+static double tokd(const std::string &s) { return strtod(s.c_str(), nullptr); }
+static std::string fmtd(const char *f, double v) { char b[64]; snprintf(b, sizeof b, f, v); return b; }
+
+static bool read_generic(const std::string &file, int n, std::vector<Snap> &out, std::string &err) {
+  try {
+    Topology dst;
+    dst.CreateResidue("RES");
+    dst.RegisterBeadType("T");
+    for (int i = 0; i < n; ++i) dst.CreateBead(Bead::spherical, "B", "T", 0, 1.0, 0.0);
+    out = read_traj(file, dst);
+    return true;
+  } catch (std::exception &e) { err = e.what(); return false; }
+}
+static int first_bad(const std::vector<V3> &g, const std::vector<V3> &e, double atol, int &comp) {
+  for (size_t i = 0; i < e.size(); ++i)
+    for (int k = 0; k < 3; ++k)
+      if (i >= g.size() || !nearx(g[i][k], e[i][k], atol)) { comp = k; return (int)i; }
+  return -1;
+}
+// judge the frames read from a harness-written file. ffacs: accepted factors
+// file force unit -> kJ/mol/nm
+static void judge_exp(const std::string &fam, const std::string &poskey, const std::string &file, const J &desc, const std::vector<Exp> &exp,
+                      const std::vector<Snap> &got, const std::vector<double> &ffacs) {
+  auto W = [&]() { J w; w.raw("case", desc.str()).s("file", slurp(file, 3000)); return w; };
+  judge(fam, "frame-count", got.size() == exp.size(), fam + "/frame-count", "number of frames read differs from the number in the file", W().i("in_file", (long long)exp.size()).i("read", (long long)got.size()));
+  for (size_t f = 0; f < exp.size() && f < got.size(); ++f) {
+    const Exp &E = exp[f];
+    const Snap &G = got[f];
+    int comp = 0, bad = first_bad(G.pos, E.pos, 0, comp);
+    judge(fam, poskey.substr(poskey.find('/') + 1), bad < 0, poskey, "positions read from the file differ from value x unit factor",
+          W().i("frame", (long long)f).i("bead", bad).i("component", comp).d("got_nm", bad >= 0 && bad < (int)G.pos.size() ? G.pos[bad][comp] : NAN).d("expected_nm", bad >= 0 ? E.pos[bad][comp] : NAN));
+    if (E.hv) {
+      bool all = true;
+      for (char h : G.hv) all = all && h;
+      int b2 = all ? first_bad(G.vel, E.vel, 0, comp) : 0;
+      judge(fam, "velocities", all && b2 < 0, fam + "/velocities", all ? "velocities read from the file differ from value x unit factor" : "velocity columns are present but beads have no velocity",
+            W().i("frame", (long long)f).i("bead", b2).i("component", comp).d("got", all && b2 >= 0 ? G.vel[b2][comp] : NAN).d("expected", b2 >= 0 ? E.vel[b2][comp] : NAN));
+    } else {
+      bool any = false;
+      for (char h : G.hv) any = any || h;
+      judge(fam, "no-velocities", !any, fam + "/spurious-velocities", "the file has no velocities but beads carry a velocity after reading", W().i("frame", (long long)f));
+    }
+    if (E.hf) {
+      bool all = true;
+      for (char h : G.hf) all = all && h;
+      bool ok = all;
+      double fct = NAN;
+      if (all) {
+        double sge = 0, see = 0;
+        for (size_t i = 0; i < E.frc.size(); ++i) for (int k = 0; k < 3; ++k) { sge += G.frc[i][k] * E.frc[i][k]; see += E.frc[i][k] * E.frc[i][k]; }
+        fct = see > 0 ? sge / see : ffacs[0];
+        bool known = false;
+        for (double a : ffacs) if (std::fabs(fct / a - 1) < 1e-6) known = true;
+        ok = known;
+        for (size_t i = 0; ok && i < E.frc.size(); ++i) for (int k = 0; k < 3; ++k) if (!nearx(G.frc[i][k], fct * E.frc[i][k], 1e-9 * std::fabs(fct))) ok = false;
+      }
+      judge(fam, "forces", ok, fam + "/forces", all ? "forces read from the file are not value x (one accepted) unit factor" : "force columns are present but beads have no force", W().i("frame", (long long)f).d("observed_factor", fct).vec("accepted_factors", ffacs));
+    }
+    if (E.has_box) {
+      bool ok = true;
+      for (int i = 0; i < 3; ++i) for (int j = 0; j < 3; ++j) if (!nearx(G.box(i, j), E.box(i, j))) ok = false;
+      judge(fam, "box", ok, fam + "/box", "box read from the file differs from the cell in the file x unit factor", W().i("frame", (long long)f).vec("got_rowmajor", flat(G.box)).vec("expected_rowmajor", flat(E.box)));
+    }
+    if (E.has_step) judge(fam, "step", G.step == E.step, fam + "/step", "time step number differs from the file", W().i("frame", (long long)f).i("got", G.step).i("expected", E.step));
+  }
+}
+
+// ---------------------------------------------------------- LAMMPS dump
+static void dumpread_case(vfh::Rng &r, const std::string &base) {
+  new_case();
+  int n = g_minimal ? (int)r.range(1, 2) : (r.coin(0.7) ? (int)r.range(1, 12) : (int)r.range(13, 60));
+  int nfr = g_minimal ? 1 : (int)r.range(1, 3);
+  bool hv = r.coin(0.5), hf = r.coin(0.5);
+  bool lo0 = g_minimal ? true : r.coin(0.65);
+  struct At { std::string x[3], xu[3], xs[3], v[3], f[3]; int k[3]; int type; };
+  struct Fr { std::string lo[3], hi[3]; long step; std::vector<At> at; };
+  std::vector<Fr> frs;
+  long step = r.range(0, 1000);
+  for (int fi = 0; fi < nfr; ++fi) {
+    Fr F;
+    F.step = step; step += r.range(1, 500);
+    double lo[3], L[3];
+    for (int k = 0; k < 3; ++k) {
+      F.lo[k] = lo0 ? "0" : fmtd("%.6f", r.uni(-60, 60));
+      lo[k] = tokd(F.lo[k]);
+      F.hi[k] = fmtd("%.6f", lo[k] + r.logu(5, 400));
+      L[k] = tokd(F.hi[k]) - lo[k];
+    }
+    for (int i = 0; i < n; ++i) {
+      At a;
+      a.type = (int)r.range(1, 3);
+      for (int k = 0; k < 3; ++k) {
+        double f = r.uni(0, 1);
+        int c = (int)r.range(0, 19);
+        if (c == 0) f = -r.uni(0, 0.02);       // slightly outside the cell
+        else if (c == 1) f = 1 + r.uni(0, 0.02);
+        else if (c == 2) f = 0;
+        a.xs[k] = fmtd("%.10f", f);
+        double fs = tokd(a.xs[k]);
+        a.x[k] = fmtd("%.8f", lo[k] + fs * L[k]);
+        a.k[k] = (int)r.range(-2, 2);
+        a.xu[k] = fmtd("%.8f", tokd(a.x[k]) + a.k[k] * L[k]);
+        a.v[k] = fmtd("%.8f", r.normal() * 20);
+        a.f[k] = r.coin() ? fmtd("%.8f", r.normal() * 30) : fmtd("%.6e", r.normal() * 30);
+      }
+      F.at.push_back(a);
+    }
+    frs.push_back(F);
+  }
+  static const char *CN[3][3] = {{"x", "y", "z"}, {"xu", "yu", "zu"}, {"xs", "ys", "zs"}};
+  static const char *FL[3] = {"x", "xu", "xs"};
+  static const char *KEY[3] = {"dump-reader/positions", "dump-reader/unwrapped-positions", "dump-reader/scaled-positions"};
+  auto write = [&](const std::string &file, int fl, bool permuted, std::string &header) {
+    std::vector<std::string> cols = {"id", "type", CN[fl][0], CN[fl][1], CN[fl][2]};
+    if (hv) { cols.push_back("vx"); cols.push_back("vy"); cols.push_back("vz"); }
+    if (hf) { cols.push_back("fx"); cols.push_back("fy"); cols.push_back("fz"); }
+    std::vector<int> order(n);
+    for (int i = 0; i < n; ++i) order[i] = i;
+    if (permuted) {
+      static const char *EX[] = {"mol", "q", "ix", "iy", "iz", "radius", "c_pe"};
+      for (const char *e : EX) if (r.coin(0.4)) cols.push_back(e);
+      for (size_t i = cols.size() - 1; i > 0; --i) std::swap(cols[i], cols[(size_t)r.range(0, (long)i)]);
+      if (cols[0] == "id" && cols.size() > 1) std::swap(cols[0], cols[(size_t)r.range(1, (long)cols.size() - 1)]);
+      for (int i = n - 1; i > 0; --i) std::swap(order[i], order[(int)r.range(0, i)]);
+    }
+    header = "ITEM: ATOMS";
+    for (auto &c : cols) header += " " + c;
+    std::ofstream o(file);
+    for (auto &F : frs) {
+      o << "ITEM: TIMESTEP\n" << F.step << "\nITEM: NUMBER OF ATOMS\n" << n << "\nITEM: BOX BOUNDS pp pp pp\n";
+      for (int k = 0; k < 3; ++k) o << F.lo[k] << " " << F.hi[k] << "\n";
+      o << header << "\n";
+      for (int oi : order) {
+        const At &a = F.at[oi];
+        bool first = true;
+        for (auto &c : cols) {
+          std::string v;
+          if (c == "id") v = std::to_string(oi + 1);
+          else if (c == "type") v = std::to_string(a.type);
+          else if (c == "vx") v = a.v[0]; else if (c == "vy") v = a.v[1]; else if (c == "vz") v = a.v[2];
+          else if (c == "fx") v = a.f[0]; else if (c == "fy") v = a.f[1]; else if (c == "fz") v = a.f[2];
+          else if (c == "mol") v = std::to_string(oi / 3 + 1);
+          else if (c == "q") v = "-0.8476";
+          else if (c == "ix" || c == "iy" || c == "iz") v = std::to_string((int)r.range(-2, 2));
+          else if (c == "radius") v = "1.5";
+          else if (c == "c_pe") v = "-12.25";
+          else for (int k = 0; k < 3; ++k) if (c == CN[fl][k]) v = fl == 0 ? a.x[k] : fl == 1 ? a.xu[k] : a.xs[k];
+          o << (first ? "" : " ") << v;
+          first = false;
+        }
+        o << "\n";
+      }
+    }
+  };
+  std::vector<std::vector<Snap>> canon(3);
+  std::vector<bool> canon_ok(3, false);
+  for (int fl = 0; fl < 3; ++fl) {
+    std::string fam = "dump-reader";
+    std::vector<Exp> exp;
+    for (auto &F : frs) {
+      Exp E;
+      E.hv = hv; E.hf = hf; E.has_step = true; E.step = F.step;
+      for (int k = 0; k < 3; ++k) E.box(k, k) = (tokd(F.hi[k]) - tokd(F.lo[k])) * 0.1;
+      for (auto &a : F.at) {
+        V3 p, v, f;
+        for (int k = 0; k < 3; ++k) {
+          p[k] = fl == 0 ? tokd(a.x[k]) * 0.1 : fl == 1 ? tokd(a.xu[k]) * 0.1 : tokd(a.xs[k]) * E.box(k, k);
+          v[k] = tokd(a.v[k]) * 0.1;
+          f[k] = tokd(a.f[k]);
+        }
+        E.pos.push_back(p); E.vel.push_back(v); E.frc.push_back(f);
+      }
+      exp.push_back(E);
+    }
+    for (int perm = 0; perm < 2; ++perm) {
+      std::string file = base + "_" + FL[fl] + (perm ? "_perm.dump" : ".dump"), header, err;
+      write(file, fl, perm == 1, header);
+      R.eval(std::string("dump-reader/") + FL[fl] + (perm ? "-permuted" : "-canonical"));
+      J desc; desc.s("coordinate_flavour", FL[fl]).s("atoms_header", header).i("natoms", n).i("frames", nfr).b("bounds_start_at_zero", lo0);
+      std::vector<Snap> got;
+      bool ok = read_generic(file, n, got, err);
+      judge(fam, "accepted", ok, "dump-reader/rejected", "LAMMPSDumpReader throws on a dump file in the official layout", J().raw("case", desc.str()).s("exception", err).s("file", slurp(file, 2500)));
+      if (!ok) continue;
+      if (perm == 0) {
+        judge_exp(fam, KEY[fl], file, desc, exp, got, {41.84, 41.8679994});
+        canon[fl] = got; canon_ok[fl] = true;
+      } else if (canon_ok[fl]) {
+        // same tokens, other column order / id position / atom order / extra columns: bit-identical result
+        bool same = got.size() == canon[fl].size();
+        for (size_t f = 0; same && f < got.size(); ++f) {
+          const Snap &A = got[f], &B = canon[fl][f];
+          if (!(A.box == B.box) || A.step != B.step) same = false;
+          for (int i = 0; same && i < n; ++i)
+            if (!(A.pos[i] == B.pos[i]) || (hv && !(A.vel[i] == B.vel[i])) || (hf && !(A.frc[i] == B.frc[i])) || A.hv[i] != B.hv[i] || A.hf[i] != B.hf[i]) same = false;
+        }
+        judge(fam, "column-order", same, "dump-reader/column-order", "the same atoms with shuffled columns (id not first, unknown extra columns) and shuffled atom order read differently",
+              J().raw("case", desc.str()).s("file", slurp(file, 2500)));
+      }
+    }
+  }
+  // the three coordinate flavours describe the same configuration
+  if (canon_ok[0] && canon_ok[1] && canon_ok[2]) {
+    bool okU = true, okS = true, shiftS = true;
+    for (size_t f = 0; f < frs.size() && f < canon[0].size(); ++f)
+      for (int i = 0; i < n; ++i)
+        for (int k = 0; k < 3; ++k) {
+          double Lnm = (tokd(frs[f].hi[k]) - tokd(frs[f].lo[k])) * 0.1, lonm = tokd(frs[f].lo[k]) * 0.1;
+          double px = canon[0][f].pos[i][k], pu = canon[1][f].pos[i][k], ps = canon[2][f].pos[i][k];
+          double tol = 2e-9 + 64 * EPS * (std::fabs(px) + 3 * Lnm);
+          if (!(std::fabs(pu - frs[f].at[i].k[k] * Lnm - px) <= tol)) okU = false;
+          if (!(std::fabs(ps - px) <= tol)) okS = false;
+          if (!(std::fabs(ps + lonm - px) <= tol)) shiftS = false;
+        }
+    J w; w.i("natoms", n).b("bounds_start_at_zero", lo0).s("file_x", slurp(base + "_x.dump", 1500)).s("file_xu", slurp(base + "_xu.dump", 1500)).s("file_xs", slurp(base + "_xs.dump", 1500));
+    judge("dump-reader", "flavour-consistency(xu)", okU, "dump-reader/flavour-consistency-unwrapped", "x and xu columns of the same configuration do not differ by whole box edges after reading", w);
+    if (lo0) judge("dump-reader", "flavour-consistency(xs)", okS, "dump-reader/flavour-consistency-scaled", "x and xs columns of the same configuration give different positions", w);
+    else {
+      // xlo != 0: LAMMPS defines xs = (x - xlo)/(xhi - xlo). Not judged (the statement is about round trips), observed only
+      if (shiftS) R.counter("dump-reader/xlo!=0: xs path yields x - xlo, i.e. is shifted by -xlo against the x path (observed, not judged)");
+      else if (okS) R.counter("dump-reader/xlo!=0: xs path consistent with x path (observed)");
+      else R.counter("dump-reader/xlo!=0: xs path neither x nor x - xlo (observed, not judged)");
+    }
+  }
+  // topology mode on the canonical x file
+  if (g_rt++ % 4 == 0) {
+    std::string file = base + "_x.dump";
+    R.eval("dump-reader/as-topology");
+    Topology t2;
+    bool ok = true;
+    std::string err;
+    try { Quiet q; TopReaderFactory().Create(file)->ReadTopology(file, t2); } catch (std::exception &e) { ok = false; err = e.what(); }
+    bool good = ok && t2.BeadCount() == n;
+    for (int i = 0; good && i < n; ++i) {
+      if (t2.getBead(i)->getType() != std::to_string(frs[0].at[i].type)) good = false;
+      for (int k = 0; k < 3; ++k) if (!nearx(t2.getBead(i)->getPos()[k], tokd(frs[0].at[i].x[k]) * 0.1)) good = false;
+    }
+    judge("dump-reader", "topology", good, "dump-reader/topology", "dump file read as topology: bead count / type column / positions differ from the file", J().s("exception", err).s("file", slurp(file, 2000)));
+  }
+  uint64_t h = vfh::hmix(vfh::hmix(41, n), nfr);
+  h = vfh::hstr(h, frs[0].at[0].xs[0] + frs[0].hi[0]);
+  R.nontrivial(h);
+  if (R.want_sample() && n == 1) R.sample(J().s("dump_reader_case_xs_file", slurp(base + "_xs_perm.dump", 800)));
+}
+
+// ------------------------------------------------- gro / xyz / pdb / DL_POLY
+static void groread_case(vfh::Rng &r, const std::string &file) {
+  new_case();
+  int n = g_minimal ? 1 : (int)r.range(1, 20), nfr = g_minimal ? 1 : (int)r.range(1, 3);
+  bool hv = r.coin(0.5), box9 = r.coin(0.5);
+  int prec = (!g_minimal && r.coin(0.2)) ? (int)r.range(4, 6) : 3;  // 3 = standard; others: observed only
+  std::vector<Exp> exp;
+  std::ostringstream o;
+  char b[300];
+  for (int f = 0; f < nfr; ++f) {
+    Exp E; E.hv = hv;
+    o << "harness written gro, t= " << f << ".0\n" << fmtd("%5.0f", (double)n) << "\n";
+    for (int i = 0; i < n; ++i) {
+      std::string x[3], v[3];
+      std::string pf = "%" + std::to_string(prec + 5) + "." + std::to_string(prec) + "f", vf = "%" + std::to_string(prec + 5) + "." + std::to_string(prec + 1) + "f";
+      V3 p, vv;
+      for (int k = 0; k < 3; ++k) { x[k] = fmtd(pf.c_str(), r.uni(-90, 900)); v[k] = fmtd(vf.c_str(), r.normal() * 3); p[k] = tokd(x[k]); vv[k] = tokd(v[k]); }
+      snprintf(b, sizeof b, "%5d%-5s%5s%5d", i / 3 + 1, "RES", ("A" + std::to_string(i % 7)).c_str(), i + 1);
+      o << b << x[0] << x[1] << x[2];
+      if (hv) o << v[0] << v[1] << v[2];
+      o << "\n";
+      E.pos.push_back(p); E.vel.push_back(vv);
+    }
+    std::string bl;
+    for (int k = 0; k < 3; ++k) { std::string t = fmtd("%10.5f", r.logu(2, 90)); E.box(k, k) = tokd(t); bl += t; }
+    if (box9) {
+      const int I[6] = {1, 2, 0, 2, 0, 1}, Jc[6] = {0, 0, 1, 1, 2, 2};  // v1(y) v1(z) v2(x) v2(z) v3(x) v3(y)
+      for (int q = 0; q < 6; ++q) {
+        bool up = I[q] < Jc[q];
+        std::string t = fmtd("%10.5f", up ? r.uni(-0.5, 0.5) * E.box(I[q], I[q]) : 0.0);
+        E.box(I[q], Jc[q]) = tokd(t); bl += t;
+      }
+    }
+    o << bl << "\n";
+    exp.push_back(E);
+  }
+  { std::ofstream of(file); of << o.str(); }
+  J desc; desc.i("natoms", n).i("frames", nfr).b("velocity_columns", hv).b("nine_number_box", box9).i("decimals", prec);
+  std::vector<Snap> got; std::string err;
+  bool ok = read_generic(file, n, got, err);
+  if (prec != 3) {
+    // the gro format allows any precision (the column width follows from the distance of the decimal points);
+    // VOTCA's writer never produces it: observed, not judged
+    bool good = ok && got.size() == exp.size();
+    for (size_t f = 0; good && f < exp.size(); ++f) { int c; if (first_bad(got[f].pos, exp[f].pos, 0, c) >= 0) good = false; }
+    R.eval("gro-reader/other-precision(observed)");
+    R.counter(std::string("gro-reader/") + std::to_string(prec) + "-decimal columns: " + (!ok ? "rejected" : good ? "read correctly" : "silently misread") + " (observed, not judged)");
+    return;
+  }
+  R.eval(std::string("gro-reader/") + (hv ? "vel" : "novel") + (box9 ? "-box9" : "-box3"));
+  R.nontrivial(vfh::hstr(43, o.str().substr(0, 200)));
+  judge("gro-reader", "accepted", ok, "gro-reader/rejected", "GROReader throws on a valid gro file", J().raw("case", desc.str()).s("exception", err).s("file", slurp(file, 2000)));
+  if (ok) judge_exp("gro-reader", "gro-reader/positions", file, desc, exp, got, {1.0});
+}
+
+static void xyzread_case(vfh::Rng &r, const std::string &file) {
+  new_case();
+  static const char *EL[] = {"C", "H", "O", "N", "Cl", "S", "Na", "Fe"};
+  int n = g_minimal ? 1 : (int)r.range(1, 20), nfr = g_minimal ? 1 : (int)r.range(1, 3);
+  bool tabs = !g_minimal && r.coin(0.15);
+  std::vector<Exp> exp;
+  std::vector<std::string> names;
+  std::ostringstream o;
+  auto sp = [&](int lo) { std::string s((size_t)r.range(lo, 4), ' '); if (tabs && r.coin()) s = "\t"; return s; };
+  for (int f = 0; f < nfr; ++f) {
+    Exp E; E.has_box = false;
+    o << std::string((size_t)r.range(0, 2), ' ') << n << "\n" << "comment line " << f << " with 1 2 3 numbers\n";
+    for (int i = 0; i < n; ++i) {
+      std::string el = EL[r.range(0, 7)];
+      if (f == 0) names.push_back(el);
+      V3 p;
+      o << sp(0) << (f == 0 ? el : names[i]);
+      for (int k = 0; k < 3; ++k) {
+        int c = (int)r.range(0, 2);
+        std::string t = c == 0 ? fmtd("%.6f", r.uni(-300, 300)) : c == 1 ? fmtd("%.8e", r.uni(-300, 300)) : fmtd("%g", (double)r.range(-50, 50));
+        p[k] = tokd(t) * 0.1;
+        o << sp(1) << t;
+      }
+      o << sp(0) << "\n";
+      E.pos.push_back(p);
+    }
+    exp.push_back(E);
+  }
+  { std::ofstream of(file); of << o.str(); }
+  J desc; desc.i("natoms", n).i("frames", nfr).b("tab_separated", tabs);
+  std::vector<Snap> got; std::string err;
+  bool ok = read_generic(file, n, got, err);
+  if (tabs) {  // tab separated atom lines: common, but nothing VOTCA writes: observed only
+    R.eval("xyz-reader/tabs(observed)");
+    R.counter(std::string("xyz-reader/tab separated atom lines: ") + (ok ? "accepted" : "rejected") + " (observed, not judged)");
+    return;
+  }
+  R.eval("xyz-reader/free-format");
+  R.nontrivial(vfh::hstr(47, o.str().substr(0, 200)));
+  judge("xyz-reader", "accepted", ok, "xyz-reader/rejected", "XYZReader throws on a valid free-format xyz file", J().raw("case", desc.str()).s("exception", err).s("file", slurp(file, 2000)));
+  if (ok) judge_exp("xyz-reader", "xyz-reader/positions", file, desc, exp, got, {1.0});
+  // as topology: element-only names
+  Topology t2; bool ok2 = true; std::string e2;
+  try { Quiet q; TopReaderFactory().Create(file)->ReadTopology(file, t2); } catch (std::exception &e) { ok2 = false; e2 = e.what(); }
+  bool good = ok2 && t2.BeadCount() == n;
+  for (int i = 0; good && i < n; ++i) {
+    if (t2.getBead(i)->getType() != names[i] || t2.getBead(i)->getName() != names[i] + std::to_string(i)) good = false;
+    for (int k = 0; k < 3; ++k) if (!nearx(t2.getBead(i)->getPos()[k], exp[0].pos[i][k])) good = false;
+  }
+  judge("xyz-reader", "topology", good, "xyz-reader/topology", "xyz file read as topology: bead count / element names / positions differ from the file", J().s("exception", e2).s("file", slurp(file, 1500)));
+}
+
+static void pdbread_case(vfh::Rng &r, const std::string &file) {
+  new_case();
+  static const char *EL[] = {"C", "H", "O", "N", "S"};
+  int n = g_minimal ? 1 : (int)r.range(1, 20), nfr = g_minimal ? 1 : (int)r.range(1, 3);
+  bool cryst = r.coin(0.6), models = nfr > 1 || r.coin(0.5);
+  std::vector<Exp> exp;
+  std::vector<std::string> names, els;
+  std::ostringstream o;
+  char b[300];
+  for (int f = 0; f < nfr; ++f) {
+    Exp E;
+    if (cryst) {
+      double a[3];
+      for (int k = 0; k < 3; ++k) a[k] = r.logu(5, 900);
+      snprintf(b, sizeof b, "CRYST1%9.3f%9.3f%9.3f%7.2f%7.2f%7.2f P 1           1\n", a[0], a[1], a[2], 90.0, 90.0, 90.0);
+      o << b;
+      for (int k = 0; k < 3; ++k) E.box(k, k) = tokd(std::string(b).substr(6 + 9 * k, 9)) / 10.0;
+    }
+    if (models) { snprintf(b, sizeof b, "MODEL     %4d\n", f + 1); o << b; }
+    for (int i = 0; i < n; ++i) {
+      if (f == 0) { els.push_back(EL[r.range(0, 4)]); names.push_back(els.back()); }
+      double x[3];
+      for (int k = 0; k < 3; ++k) x[k] = r.uni(-900, 9000);
+      snprintf(b, sizeof b, "%-6s%5d %-4s %-3s %1s%4d    %8.3f%8.3f%8.3f%6.2f%6.2f          %2s  \n", r.coin(0.3) ? "HETATM" : "ATOM", i + 1, names[i].c_str(), "MOL", "A", i / 4 + 1,
+               x[0], x[1], x[2], 1.0, 0.0, els[i].c_str());
+      o << b;
+      V3 p;
+      for (int k = 0; k < 3; ++k) p[k] = tokd(std::string(b).substr(30 + 8 * k, 8)) / 10.0;
+      E.pos.push_back(p);
+    }
+    o << (models ? "ENDMDL\n" : "END\n");
+    exp.push_back(E);
+  }
+  { std::ofstream of(file); of << o.str(); }
+  R.eval(std::string("pdb-reader/80-column") + (cryst ? "-cryst1" : ""));
+  R.nontrivial(vfh::hstr(53, o.str().substr(0, 300)));
+  J desc; desc.i("natoms", n).i("frames", nfr).b("cryst1", cryst).b("model_records", models);
+  std::vector<Snap> got; std::string err;
+  bool ok = read_generic(file, n, got, err);
+  judge("pdb-reader", "accepted", ok, "pdb-reader/rejected", "PDBReader throws on a valid 80-column pdb file", J().raw("case", desc.str()).s("exception", err).s("file", slurp(file, 2000)));
+  if (ok) {
+    // pdb reader: x/10 (division), so allow the last-bit difference to value*0.1
+    judge_exp("pdb-reader", "pdb-reader/positions", file, desc, exp, got, {1.0});
+  }
+  Topology t2; bool ok2 = true; std::string e2;
+  try { Quiet q; TopReaderFactory().Create(file)->ReadTopology(file, t2); } catch (std::exception &e) { ok2 = false; e2 = e.what(); }
+  bool good = ok2 && t2.BeadCount() == n;
+  for (int i = 0; good && i < n; ++i) {
+    Bead *bd = t2.getBead(i);
+    if (bd->getName() != names[i] || bd->getResnr() != i / 4 || t2.getResidue(bd->getResnr()).getName() != "MOL") good = false;
+    for (int k = 0; k < 3; ++k) if (!nearx(bd->getPos()[k], exp[0].pos[i][k])) good = false;
+  }
+  judge("pdb-reader", "topology", good, "pdb-reader/topology", "pdb file read as topology: bead count / names / residues / positions differ from the file", J().s("exception", e2).s("file", slurp(file, 1500)));
+}
+
+static void dlpread_case(vfh::Rng &r, const std::string &base) {
+  new_case();
+  bool config = r.coin(0.4);
+  int n = g_minimal ? 1 : (int)r.range(1, 15), nfr = config ? 1 : (g_minimal ? 1 : (int)r.range(1, 3));
+  int lev = (int)r.range(0, 2), imcon = (int)r.range(1, 3);
+  std::string file = base + (config ? ".dlpc" : ".dlph");
+  std::vector<Exp> exp;
+  std::ostringstream o;
+  char b[300];
+  o << "harness written DL_POLY " << (config ? "CONFIG" : "HISTORY") << "\n";
+  snprintf(b, sizeof b, "%10d%10d%10d\n", lev, imcon, n);
+  o << b;
+  long step = r.range(1, 5000);
+  for (int f = 0; f < nfr; ++f) {
+    Exp E; E.hv = lev >= 1; E.hf = lev >= 2; E.has_step = !config; E.step = step;
+    if (!config) { snprintf(b, sizeof b, "timestep%10ld%10d%10d%10d%12.6f%12.6f\n", step, n, lev, imcon, 0.002, 0.002 * (double)step); o << b; }
+    step += r.range(1, 300);
+    double c[3][3] = {{0}};
+    for (int k = 0; k < 3; ++k) c[k][k] = r.logu(5, 400);
+    if (imcon == 3) { c[1][0] = r.uni(-0.5, 0.5) * c[0][0]; c[2][0] = r.uni(-0.5, 0.5) * c[0][0]; c[2][1] = r.uni(-0.5, 0.5) * c[1][1]; }
+    for (int v = 0; v < 3; ++v) {  // one cell vector per line
+      snprintf(b, sizeof b, "%20.10f%20.10f%20.10f\n", c[v][0], c[v][1], c[v][2]);
+      o << b;
+      for (int k = 0; k < 3; ++k) E.box(k, v) = tokd(std::string(b).substr(20 * k, 20)) * 0.1;
+    }
+    for (int i = 0; i < n; ++i) {
+      if (config) snprintf(b, sizeof b, "%-8s%10d\n", "OW", i + 1); else snprintf(b, sizeof b, "%-8s%10d%12.6f%12.6f%12.6f\n", "OW", i + 1, 15.9994, -0.8476, 0.0);
+      o << b;
+      for (int q = 0; q <= lev; ++q) {
+        double sc = q == 0 ? 300 : q == 1 ? 20 : 5000;
+        snprintf(b, sizeof b, "%20.10f%20.10f%20.10f\n", r.uni(-1, 1) * sc, r.uni(-1, 1) * sc, r.uni(-1, 1) * sc);
+        o << b;
+        V3 v;
+        for (int k = 0; k < 3; ++k) v[k] = tokd(std::string(b).substr(20 * k, 20));
+        if (q == 0) E.pos.push_back(v * 0.1); else if (q == 1) E.vel.push_back(v * 0.1); else E.frc.push_back(v);
+      }
+    }
+    exp.push_back(E);
+  }
+  { std::ofstream of(file); of << o.str(); }
+  R.eval(std::string("dlpoly-reader/") + (config ? "CONFIG" : "HISTORY") + "-levcfg" + std::to_string(lev));
+  R.nontrivial(vfh::hstr(59, o.str().substr(0, 400)));
+  J desc; desc.s("kind", config ? "CONFIG" : "HISTORY").i("natoms", n).i("frames", nfr).i("levcfg", lev).i("imcon", imcon);
+  std::vector<Snap> got; std::string err;
+  bool ok = read_generic(file, n, got, err);
+  judge("dlpoly-reader", "accepted", ok, "dlpoly-reader/rejected", "DLPOLYTrajectoryReader throws on a valid CONFIG/HISTORY file", J().raw("case", desc.str()).s("exception", err).s("file", slurp(file, 2500)));
+  if (ok) judge_exp("dlpoly-reader", "dlpoly-reader/positions", file, desc, exp, got, {0.1});
+}
+
 // ------------------------------------------------------------------ main
 int main(int argc, char **argv) {
   vfh::Args A(argc, argv);
@@ -1269,6 +1738,18 @@ int main(int argc, char **argv) {
       g_minimal = shard == 0 && k < 16;
       std::string f = fm[k % 4];
       atomcount_case(rng, f, f, base + "_ac." + f);
+    }
+  } else if (fam == "dumpread") {
+    for (long k = 0; k < n; ++k) { g_minimal = shard == 0 && k < 8; dumpread_case(rng, base + "_dr"); }
+  } else if (fam == "readers") {
+    for (long k = 0; k < n; ++k) {
+      g_minimal = shard == 0 && k < 12;
+      switch (k % 4) {
+        case 0: groread_case(rng, base + "_rv.gro"); break;
+        case 1: xyzread_case(rng, base + "_rv.xyz"); break;
+        case 2: pdbread_case(rng, base + "_rv.pdb"); break;
+        default: dlpread_case(rng, base + "_rv"); break;
+      }
     }
   } else if (fam == "xml") {
     for (long k = 0; k < n; ++k) xml_case(rng, base + ".xml");
